@@ -593,8 +593,21 @@ def _build(case):
     res = tuple(case["res"]) if case["res"] is not None else None
     if case["kind"] == "net":
         from tracklib.core.network import Network, Node, Edge
+        import random
         net = Network()
+        # call history on the Network object: in a third of the cases the network is indexed (or its bounding box
+        # asked for) when only some of its edges are there, the remaining edges are added, and the index is built
+        # again -- the final index must cover every edge of the network as it is then
+        hr = random.Random(repr(case["tracks"]))
+        stage = hr.randrange(1, len(trs)) if len(trs) >= 2 and hr.random() < 0.34 else None
+        how = hr.choice(["index", "index", "bbox"])
         for k, t in enumerate(trs):
+            if stage is not None and k == stage:
+                if how == "index":
+                    M.call(net.createSpatialIndex, res, case["margin"], False)
+                else:
+                    M.call(net.bbox)
+                M.CTX.count("network_staged_build:" + how)
             e = Edge("e%d" % k, t)
             net.addEdge(e, Node("s%d" % k, t.getObs(0).position.copy()),
                         Node("t%d" % k, t.getObs(t.size() - 1).position.copy()))
